@@ -149,7 +149,7 @@ theorem mux_matching (exts : List DExt) (mx : DSig) (kids : List DSig) (n : MuxN
     apply Matching.of_forall2
     refine forall2_map_right (childEntry n) hfa ?_
     intro k c hk hr
-    obtain ⟨r1, r2, r3, r4⟩ := hr
+    obtain ⟨r1, r2, r3, r4, _⟩ := hr
     refine ⟨r1, r3, ?_, hkids k hk, r4⟩
     simp only [childEntry]
     rw [r2, hstart, hw]
@@ -292,5 +292,71 @@ theorem importOne_case (cap : Int) (exts : List DExt) (mx : DSig) (sorted : List
       exact List.Perm.append_left _ e3
     exact (List.Perm.cons mx (e4.trans e2)).trans e1
   exact hall.perm hS hE
+
+theorem forall2_mem_right {α β : Type} {R : α → β → Prop} {A : List α} {B : List β}
+    (h : List.Forall₂ R A B) : ∀ b ∈ B, ∃ a ∈ A, R a b := by
+  induction h with
+  | nil => intro b hb; cases hb
+  | @cons a b A B hr _ ih =>
+    intro x hx
+    rcases List.mem_cons.1 hx with rfl | hx
+    · exact ⟨a, List.mem_cons_self .., hr⟩
+    · obtain ⟨y, hy, hxy⟩ := ih x hx
+      exact ⟨y, List.mem_cons_of_mem _ hy, hxy⟩
+
+/-- case "one multiplexor": the selector has at least one bit and nothing is nested -/
+theorem importOne_flat (cap : Int) (exts : List DExt) (mx : DSig) (sorted : List DSig) (top' : List Item)
+    (h : importOne cap exts mx sorted = .ok top') (hcap : 0 ≤ cap)
+    (hfilter : sorted.filter (·.isMultiplexor) = [mx]) :
+    1 ≤ mx.size ∧ ∀ n, Item.mux n ∈ top' → ∀ c ∈ n.children, c.isMux = false := by
+  obtain ⟨muxed, std, last, top1, kids, n, hsplit, hplace, hmux, hins⟩ := importOne_struct cap exts mx sorted top' h
+  obtain ⟨hm, hs, hpos, _, _, _⟩ := splitOne_spec mx.name sorted [] [] (-1) muxed std last hsplit
+  simp only [List.nil_append] at hm hs
+  have hstdpos : ∀ s ∈ std, 0 < s.size := by
+    intro s hs'
+    rw [hs] at hs'
+    obtain ⟨h1, h2⟩ := List.mem_filter.1 hs'
+    simp only [Bool.and_eq_true, Bool.not_eq_true'] at h2
+    exact hpos s h1 h2.1
+  obtain ⟨hinv1, hp1, hk⟩ := placeStd_spec cap (sigPos mx) last std [] muxed top1 kids hplace hstdpos (topInv_nil cap hcap)
+  have hkidmem : ∀ k ∈ kids, k ∈ sorted ∧ (k.name == mx.name) = false := by
+    intro k hk'
+    rw [hk] at hk'
+    rcases List.mem_append.1 hk' with h1 | h1
+    · rw [hm] at h1
+      obtain ⟨h1, h2⟩ := List.mem_filter.1 h1
+      simp only [Bool.and_eq_true, Bool.not_eq_true'] at h2
+      exact ⟨h1, h2.1⟩
+    · have h1 := (List.mem_filter.1 h1).1
+      rw [hs] at h1
+      obtain ⟨h1, h2⟩ := List.mem_filter.1 h1
+      simp only [Bool.and_eq_true, Bool.not_eq_true'] at h2
+      exact ⟨h1, h2.1⟩
+  have hkidpos : ∀ k ∈ kids, 0 < k.size := by
+    intro k hk'
+    obtain ⟨a, b⟩ := hkidmem k hk'
+    exact hpos k a b
+  obtain ⟨hwf, _, _, _, _, hfa⟩ := importMux_spec exts mx kids n hmux hkidpos
+  refine ⟨importMux_size exts mx kids n hmux, ?_⟩
+  obtain ⟨heq, _⟩ := insertTop_spec cap top1 top' (.mux n) hins (muxItem_size_pos n hwf) hinv1.wf
+  intro n' hn' c hc
+  rw [heq] at hn'
+  rcases (mem_insertItem _ _ _).1 hn' with h1 | h1
+  · injection h1 with h1
+    subst h1
+    obtain ⟨k, hk', _, _, _, _, r5⟩ := forall2_mem_right hfa c hc
+    rw [r5]
+    cases hb : k.isMultiplexor
+    · rfl
+    · obtain ⟨a, b⟩ := hkidmem k hk'
+      have : k ∈ sorted.filter (·.isMultiplexor) := List.mem_filter.2 ⟨a, hb⟩
+      rw [hfilter, List.mem_singleton] at this
+      rw [this] at b
+      simp at b
+  · -- the other items are leaves
+    have := (hp1.mem_iff).1 h1
+    rw [List.append_nil] at this
+    obtain ⟨s, _, hs'⟩ := List.mem_map.1 this
+    cases hs'
 
 end Acme.Import
